@@ -85,6 +85,28 @@ def pmap(func, items, workers: int | None = None, chunksize: int = 1):
         return pool.map(func, items, chunksize=chunksize)
 
 
+class _Batch:
+    def __init__(self, func):
+        self.func = func
+
+    def __call__(self, xs):
+        return [self.func(x) for x in xs]
+
+
+def fresh_process_map(func, items, batch: int = 8):
+    """Ordered map in which every batch of items runs in a newly forked process of its own, one batch at a time.  For Spark cases: the
+    JVM a batch starts belongs to that process and ends with it, so its heap does not grow over a whole run (one session serving ~40
+    Splink cases ran out of heap even after clearing the cache)."""
+    items = list(items)
+    if not items:
+        return []
+    batches = [items[i:i + batch] for i in range(0, len(items), batch)]
+    ctx = mp.get_context("fork")
+    with ctx.Pool(1, initializer=_init_worker, maxtasksperchild=1) as pool:
+        out = pool.map(_Batch(func), batches, chunksize=1)
+    return [r for b in out for r in b]
+
+
 class safe:
     """Wrap a (module-level) worker so an exception becomes a value {'__error__': kind, 'text': ...}; picklable."""
 
